@@ -575,6 +575,11 @@ def tecmp_jobs():
     # long bus-status messages (property: 0..40 entries)
     for n, tier in ((28 + 12 + 12 * 22, "quick"), (28 + 12 + 12 * 40, "thorough"), (28 + 12 + 12 * 30 + 5, "thorough")):
         add(n, 2, tier=tier)
+    # capture-module status: only the shapes that must be rejected (payload shorter than the 36-byte fixed part). The
+    # conversion itself calls std::stringstream / std::to_string (libstdc++.so, no IR) and made symex crawl even with
+    # std::string instantiated from the headers (variant "str", kept in the driver) - outside the claim.
+    for n in (28, 29, 40, 52, 63):
+        add(n, 1, tier="quick" if n in (29, 63) else "thorough")
     # unsupported message kinds
     for mt in (0, 4, 0x0A, 0x55, 0xFF):
         for n in (28, 40, 60):
